@@ -62,7 +62,12 @@ class Ed25519Key(PKey):
             pkformat, data = self._read_private_key("OPENSSH", file_obj)
 
         if filename or file_obj:
-            signing_key = self._parse_signing_key_data(data, password)
+            try:
+                signing_key = self._parse_signing_key_data(data, password)
+            except ValueError as e:
+                # Corrupt key data: text that isn't UTF-8, bad cipher or KDF
+                # parameters, a seed of the wrong size...
+                raise SSHException("Invalid key: {}".format(e))
 
         if signing_key is None and verifying_key is None:
             raise ValueError("need a key")
@@ -156,12 +161,13 @@ class Ed25519Key(PKey):
             # key...
             signing_key = nacl.signing.SigningKey(key_data[:32])
             # Verify that all the public keys are the same...
-            assert (
+            if not (
                 signing_key.verify_key.encode()
                 == public
                 == public_keys[i]
                 == key_data[32:]
-            )
+            ):
+                raise SSHException("Invalid key")
             signing_keys.append(signing_key)
             # Comment, ignore.
             message.get_binary()
